@@ -196,3 +196,123 @@ Fixpoint declare_all (m : nsm) (l : list (string * string)) : option nsm :=
   | [] => Some m
   | (p, u) :: r => match add_namespace m (mkNs p u) with Some (m', _) => declare_all m' r | None => None end
   end.
+
+(* ---- a container that holds elements only.  The writer: per element record, the triple naming its class, then one
+   triple per (attribute, value) pair.  The reader (decode_container): first every rdf:type triple — an object naming a
+   PROV class whose base class it is registers the subject under that kind (once), any other object is filed as a
+   prov:type attribute of the subject; then every other triple of a registered subject is decoded and filed under its
+   subject; at the end one new_record per registered subject, in the order of registration.  Triples are taken in
+   the order of the list (rdflib's store order is an oracle; the harness re-runs the real decoder on shuffled quads).
+   Outside this model (OutOfDomain): predicates of relation_mapper, subjects without a registered kind, the derivation
+   subtypes as rdf:type objects. *)
+Definition rdf_element_block (r : prec) : option (list (string * string * rterm)) :=
+  match rid r, rdf_element_triples (attributes r) with
+  | Some q, Some ts => Some ((qn_uri q, rdf_type, RUri (P (rkind r))) :: map (fun pt => (qn_uri q, fst pt, snd pt)) ts)
+  | _, _ => None
+  end.
+
+Fixpoint rdf_element_blocks (rs : list prec) : option (list (string * string * rterm)) :=
+  match rs with
+  | [] => Some []
+  | r :: rest => match rdf_element_block r, rdf_element_blocks rest with
+                 | Some a, Some b => Some (a ++ b)%list
+                 | _, _ => None
+                 end
+  end.
+
+Definition term_str (t : rterm) : string := match t with RUri u => u | RLit lex _ _ => lex end.
+
+(* (class named, its base class) when the string is the URI of a PROV record class *)
+Definition class_of_uri (u : string) : option (string * string) :=
+  if starts_with prov_uri u then
+    let l := drop (String.length prov_uri) u in
+    match lookup l prov_base_cls with Some b => Some (l, b) | None => None end
+  else None.
+
+Definition others : Type := list (string * list (namearg * valarg)).
+Fixpoint other_add (id : string) (na : namearg * valarg) (o : others) : others :=
+  match o with
+  | [] => [(id, [na])]
+  | (k, l) :: r => if String.eqb id k then (k, (l ++ [na])%list) :: r else (k, l) :: other_add id na r
+  end.
+Definition other_get (id : string) (o : others) : list (namearg * valarg) :=
+  match lookup id o with Some l => l | None => [] end.
+
+(* phase 1: the rdf:type triples *)
+Fixpoint rdf_types (par : option nsm) (m : nsm) (ts : list (string * string * rterm)) (ids : list (string * string)) (o : others)
+  : result (list (string * string) * others) :=
+  match ts with
+  | [] => OK (ids, o)
+  | (s, p, t) :: rest =>
+      if negb (String.eqb p rdf_type) then rdf_types par m rest ids o else
+      let file :=
+        match rdf_decode par m t with
+        | OK va => rdf_types par m rest ids (other_add s (NQn (prov_qn "type"), va) o)
+        | Raise e => Raise e
+        | OutOfDomain => OutOfDomain
+        end in
+      match class_of_uri (term_str t) with
+      | Some (cls, base) =>
+          if existsb (String.eqb cls) ["Revision"; "Quotation"; "PrimarySource"] then OutOfDomain
+          else if (negb (mem s ids) && String.eqb cls base)%bool then rdf_types par m rest (ids ++ [(s, base)])%list o
+          else file
+      | None => file
+      end
+  end.
+
+(* phase 2: the other triples of registered subjects *)
+Fixpoint rdf_attrs (par : option nsm) (m : nsm) (ts : list (string * string * rterm)) (ids : list (string * string)) (o : others)
+  : result others :=
+  match ts with
+  | [] => OK o
+  | (s, p, t) :: rest =>
+      if String.eqb p rdf_type then rdf_attrs par m rest ids o
+      else if mem (drop (String.length prov_uri) p) rdf_relation_mapper && starts_with prov_uri p then OutOfDomain
+      else if negb (mem s ids) then OutOfDomain
+      else match rdf_decode par m t with
+           | OK va => rdf_attrs par m rest ids (other_add s (dec_elem_name p, va) o)
+           | Raise e => Raise e
+           | OutOfDomain => OutOfDomain
+           end
+  end.
+
+(* phase 3: one record per registered subject *)
+Fixpoint rdf_make (par : option nsm) (ft : ftable) (b : bundle) (ids : list (string * string)) (o : others) : bundle * result unit :=
+  match ids with
+  | [] => (b, OK tt)
+  | (s, kind) :: rest =>
+      match new_record par ft b kind (Some (NStr s)) (other_get s o) with
+      | (b', OK _) => rdf_make par ft b' rest o
+      | (b', Raise e) => (b', Raise e)
+      | (b', OutOfDomain) => (b', OutOfDomain)
+      end
+  end.
+
+Definition rdf_read_elements (par : option nsm) (ft : ftable) (b : bundle) (ts : list (string * string * rterm)) : bundle * result unit :=
+  match rdf_types par (bns b) ts [] [] with
+  | OK (ids, o1) =>
+      match rdf_attrs par (bns b) ts ids o1 with
+      | OK o2 => rdf_make par ft b ids o2
+      | Raise e => (b, Raise e)
+      | OutOfDomain => (b, OutOfDomain)
+      end
+  | Raise e => (b, Raise e)
+  | OutOfDomain => (b, OutOfDomain)
+  end.
+
+(* a graph is a set of triples *)
+Definition rterm_eqb (a b : rterm) : bool :=
+  match a, b with
+  | RUri x, RUri y => String.eqb x y
+  | RLit l d g, RLit l2 d2 g2 =>
+      (String.eqb l l2 && match d, d2 with Some x, Some y => String.eqb x y | None, None => true | _, _ => false end
+       && match g, g2 with Some x, Some y => String.eqb x y | None, None => true | _, _ => false end)%bool
+  | _, _ => false
+  end.
+Definition triple_eqb3 (a b : string * string * rterm) : bool :=
+  (String.eqb (fst (fst a)) (fst (fst b)) && String.eqb (snd (fst a)) (snd (fst b)) && rterm_eqb (snd a) (snd b))%bool.
+Fixpoint dedup_triples (l : list (string * string * rterm)) : list (string * string * rterm) :=
+  match l with
+  | [] => []
+  | x :: r => x :: filter (fun y => negb (triple_eqb3 x y)) (dedup_triples r)
+  end.
